@@ -168,6 +168,11 @@ func ParseRtpHeader(b []byte) (h RtpHeader, err error) {
 
 	if h.Padding == 1 {
 		h.paddingLength = int(b[len(b)-1])
+		// rfc3550#section-5.1 the padding count includes itself and must leave the payload in place,
+		// otherwise Body() would slice past the payload
+		if offset+h.paddingLength >= len(b) {
+			return h, base.ErrRtpRtcpShortBuffer
+		}
 	}
 	return
 }
@@ -220,7 +225,7 @@ func IsAvcBoundary(pkt RtpPacket) bool {
 	}
 
 	b := pkt.Body()
-	if len(b) == 0 {
+	if len(b) < 1 {
 		return false
 	}
 	outerNaluType := avc.ParseNaluType(b[0])
@@ -264,7 +269,7 @@ func IsHevcBoundary(pkt RtpPacket) bool {
 	}
 
 	b := pkt.Body()
-	if len(b) == 0 {
+	if len(b) < 1 {
 		return false
 	}
 	outerNaluType := hevc.ParseNaluType(b[0])
